@@ -503,13 +503,16 @@ def run_chunk(pool, snapexe, drv, chunk):
             script += case_script(cid, case, top)
         rc, out, err = C.sh([snapexe], input=("\n".join(script) + "\n").encode(), env=_env(), timeout=120 + 40 * len(todo))
         rc2, out2, err2 = C.sh([drv, "dumps"], input=out, timeout=600)
+        want_io = {cid for cid, case in todo if case[2].get("_io")}
+        if want_io:
+            io_summaries(out.decode(errors="replace"), want_io, results)
         cur = None
         done = set()
         for line in out2.decode(errors="replace").split("\n"):
             m = re.match(r"echo CASE (\d+)$", line)
             if m:
                 cur = int(m.group(1))
-                results[cur] = {"lines": []}
+                results.setdefault(cur, {})["lines"] = []
                 continue
             m = re.match(r"echo END (\d+)$", line)
             if m:
@@ -536,6 +539,105 @@ def run_chunk(pool, snapexe, drv, chunk):
         results[bad]["crash"] = (rc if rc != 0 else rc2, err.decode(errors="replace"), err2.decode(errors="replace"))
         todo = [(cid, c) for cid, c in todo if cid not in done and cid != bad]
     return results
+
+
+IO_TYPES = (16, 17, 18)     # Bridge, PCIDevice, OSDevice
+
+
+def io_summaries(raw, want, results):
+    """From the raw harness output: for each wanted case, the I/O objects of its first dump as
+    {type: sorted [identity]} with identity = (attributes without the bridge depth, name, subtype)."""
+    cur, taken = None, False
+    for line in raw.split("\n"):
+        if line.startswith("echo CASE "):
+            cid = int(line[10:])
+            cur, taken = (cid if cid in want else None), False
+            if cur is not None:
+                results.setdefault(cur, {})["io"] = None
+        elif cur is None:
+            continue
+        elif line.startswith("T ") and not taken:
+            results[cur]["io"] = {t: [] for t in IO_TYPES}
+        elif line == "E":
+            taken = True
+        elif line.startswith("O ") and not taken and results[cur]["io"] is not None:
+            f = dict(x.split("=", 1) for x in line.split(" ")[2:] if "=" in x)
+            ty = int(f.get("ty", -1))
+            if ty in IO_TYPES:
+                at = ",".join(a for a in f.get("at", "").split(",") if not a.startswith("bdepth:"))
+                results[cur]["io"][ty].append((at, f.get("nm"), f.get("st")))
+    for cid in want:
+        io = results.get(cid, {}).get("io")
+        if io:
+            for t in io:
+                io[t].sort()
+
+
+def io_filters_of(case):
+    """(Bridge, PCIDevice, OSDevice) filter numbers of a case (I/O types default to KEEP_NONE = 1)."""
+    f = {16: 1, 17: 1, 18: 1}
+    for l in case[3]:
+        m = re.match(r"filter (\d+|io|all) (\d+)$", l)
+        if m and m.group(1) in ("io", "all"):
+            for t in f:
+                f[t] = int(m.group(2))
+        elif m and int(m.group(1)) in f:
+            f[int(m.group(1))] = int(m.group(2))
+    return tuple(f[t] for t in IO_TYPES)
+
+
+def sub_multiset(a, b):
+    b = list(b)
+    for x in a:
+        if x in b:
+            b.remove(x)
+        else:
+            return False
+    return True
+
+
+def judge_io(run, cases, results):
+    """Spec on the I/O type filters (the filter of a type decides that type only): against the load of the same
+    source with the three I/O types KEEP_ALL, a type filtered KEEP_ALL shows the same objects whatever the other
+    two filters are (host bridges only a sub-multiset: they exist above kept PCI objects), KEEP_IMPORTANT a sub-multiset, KEEP_NONE nothing."""
+    names = {16: "Bridge", 17: "PCIDevice", 18: "OSDevice"}
+    groups = {}
+    for case, r in zip(cases, results):
+        if r is None or not r.get("io") or case[5]:
+            continue
+        groups.setdefault((case[0].rel, tuple(sorted((k, v) for k, v in case[2].items()))), []).append((case, r))
+    for key, items in groups.items():
+        ref = next((r for c, r in items if io_filters_of(c) == (0, 0, 0)), None)
+        if ref is None:
+            continue
+        run.cov["io_reference_objects"] = run.cov.get("io_reference_objects", 0) + sum(len(v) for v in ref["io"].values())
+        for case, r in items:
+            fl = io_filters_of(case)
+            for i, t in enumerate(IO_TYPES):
+                got, full = r["io"][t], ref["io"][t]
+                if t == 16 and fl[i] == 0:
+                    # host bridges are created by hwloc_pcidisc_tree_attach() above the PCI objects that were kept:
+                    # they depend on the PCIDevice filter by design (subset); PCI-to-PCI bridges must not
+                    host = lambda l: [x for x in l if x[0].startswith("bup:0")]
+                    p2p = lambda l: [x for x in l if not x[0].startswith("bup:0")]
+                    ok, rel = p2p(got) == p2p(full) and sub_multiset(host(got), host(full)), "(PCI-to-PCI: same set, host bridges: subset) differ from"
+                    if not ok:
+                        got, full = p2p(got), p2p(full)
+                elif fl[i] == 0:
+                    ok, rel = got == full, "differ from"
+                elif fl[i] == 1:
+                    ok, rel = not got, "present although KEEP_NONE, unlike"
+                else:
+                    ok, rel = sub_multiset(got, full), "not a subset of"
+                run.count("io|%s|%s|%d|%s" % (case[0].rel, fl, t, len(got)), nontrivial=bool(full), kind="io-filter-spec:%s" % names[t])
+                if not ok:
+                    extra = [x for x in got if x not in full][:3]
+                    lost = [x for x in full if x not in got][:3]
+                    run.violation("io-filter:%s:%s-others-%s" % (names[t], {0: "all", 1: "none", 3: "important"}.get(fl[i], fl[i]),
+                                                                 "-".join({0: "all", 1: "none", 3: "important"}.get(x, str(x)) for j, x in enumerate(fl) if j != i)),
+                                  "%s objects under filters (Bridge,PCIDevice,OSDevice)=%s %s the KEEP_ALL/KEEP_ALL/KEEP_ALL load of the same snapshot: %d vs %d objects; extra %s missing %s [%s]"
+                                  % (names[t], fl, rel, len(got), len(full), extra, lost, case[0].rel),
+                                  case_text(case))
 
 
 def verdicts(r):
@@ -799,6 +901,54 @@ def class_cases(run, pool, snaps):
     return cases
 
 
+def io_cases(run, pool, snaps):
+    """I/O type filters on the snapshots holding a PCI bus: the full (Bridge, PCIDevice, OSDevice) in
+    {KEEP_ALL, KEEP_NONE, KEEP_IMPORTANT}^3 matrix (27 light loads per snapshot, compared by judge_io), a few full
+    cases (second load, XML round trip, disallowed view) with the I/O types separated, and single removals of
+    files below sys/bus/pci, sys/class and sys/devices/pci* - one instance per file-name class, a seed-rotated
+    slice of the classes in the quick tier - loaded with I/O filters that disagree."""
+    rng = run.rng
+    quick = run.tier == "quick"
+    cases = []
+    used = []
+    for snap in snaps:
+        if snap.kind != "linux":
+            continue
+        rem = removable_of(pool, snap)
+        iorem = [p for p in rem if "sys/bus/pci/" in p or "sys/class/" in p or re.search(r"sys/devices/pci[^/]*/", p)]
+        if not any("sys/bus/pci/devices/" in p for p in rem):
+            continue
+        used.append(snap.rel)
+        comps, env, filters, flags = gen_config(rng, snap, plain=True)
+        env = dict(env)
+        env["_light"] = "1"
+        env["_io"] = "1"
+        for b in (0, 1, 3):
+            for pc in (0, 1, 3):
+                for o in (0, 1, 3):
+                    cases.append(("io-matrix", (snap, comps, env, ["filter 16 %d" % b, "filter 17 %d" % pc, "filter 18 %d" % o], 0, [])))
+        fenv = {k: v for k, v in env.items() if not k.startswith("_")}
+        for _ in range(2 if quick else 12):
+            fl = [rng.choice([0, 1, 3]) for _ in range(3)]
+            if fl[0] == fl[1]:
+                fl[rng.randrange(2)] = rng.choice([x for x in (0, 1, 3) if x != fl[0]])
+            fs = ["filter %d %d" % (t, f) for t, f in zip(IO_TYPES, fl)] + (["filter 19 0"] if rng.random() < 0.5 else [])
+            cases.append(("io-full", (snap, comps, fenv, fs, rng.choice([0, 1, 128, 8]), [])))
+        classes = {}
+        for p in iorem:
+            classes.setdefault(class_of(p), []).append(p)
+        names = sorted(classes)
+        nsel = min(len(names), 10 if quick else 120)
+        off = (run.seed * nsel) % max(1, len(names))
+        for cls in (names + names)[off:off + nsel]:
+            inst = classes[cls]
+            p = inst[(run.seed * 5 + len(cls)) % len(inst)]
+            fl = rng.choice([(0, 0, 0), (1, 0, 0), (0, 1, 0), (3, 0, 0), (0, 3, 3), (1, 3, 0), (3, 1, 0)])
+            cases.append(("io-removal", (snap, comps, env, ["filter %d %d" % (t, f) for t, f in zip(IO_TYPES, fl)], 0, [p])))
+    run.cov["io_snapshots"] = used
+    return cases
+
+
 def select_snapshots(run):
     lin = [Snap(t) for t in S.snapshots("linux")]
     x86 = [Snap(t) for t in S.snapshots("x86")]
@@ -837,6 +987,7 @@ def check_snapshots(run, snapexe, drv, replay_case=None):
         allsnaps = [by_rel.get(os.path.relpath(t, os.path.join(C.REPO, "tests/hwloc"))) or Snap(t)
                     for k in ("linux", "x86", "x86+linux") for t in S.snapshots(k)]
         labelled += class_cases(run, pool, allsnaps)
+        labelled += io_cases(run, pool, allsnaps)
         run.cov["snapshots_used"] = sorted(s.rel for s in snaps)
         # judge per label so that the evidence shows the distribution
         cases = [c for _, c in labelled]
@@ -844,6 +995,7 @@ def check_snapshots(run, snapexe, drv, replay_case=None):
         for lab in sorted(set(l for l, _ in labelled)):
             idx = [i for i, (l, _) in enumerate(labelled) if l == lab]
             search.judge([cases[i] for i in idx], [results[i] for i in idx], lab)
+        judge_io(run, cases, results)
         return len(cases)
     finally:
         pool.close()
